@@ -193,21 +193,13 @@ def r2_loader(ctx) -> None:
   ctx.check(st_ok, 'R2', 'newly completed: status COMPLETED', q[0], 'status_matches=COMPLETED',
             'the loader does not ask for COMPLETED trials', construct='status', func=f.qualname)
   ids_ok = False
-  if 'trial_ids' in kw and isinstance(kw['trial_ids'], ast.Name):
+  if 'trial_ids' in kw:
     node = g.node_of(q[0])
-    for d in rd.at(node, kw['trial_ids'].id):
-      v = d.value
-      if isinstance(v, ast.BinOp) and isinstance(v.op, ast.Sub) and dotted(v.right) == f'self.{field}':
-        # left = set(range(1, max_trial_id + 1))
-        lt = unparse(v.left, 0)
-        l_ok = False
-        if isinstance(v.left, ast.Name):
-          for d2 in rd.at(node, v.left.id):
-            if d2.value is not None and 'range(1, max_trial_id + 1)' in unparse(d2.value, 0):
-              l_ok = True
-        elif 'range(1, max_trial_id + 1)' in lt:
-          l_ok = True
-        ids_ok = l_ok
+    mpar = [p_ for p_ in f.params if p_ != 'self'][0]
+    pths = pathcond.paths(g, [g.entry], node) if node is not None else []
+    want_ids = {f'set(range(1, {mpar} + 1)) - self.{field}', f'set(range(1, {mpar} + 1)).difference(self.{field})',
+                f'set(range(1, 1 + {mpar})) - self.{field}'}
+    ids_ok = bool(pths) and all(unparse(pathcond.substitute_on_path(p_, kw['trial_ids']), 0) in want_ids for p_ in pths)
   ctx.check(ids_ok, 'R2', 'newly completed: ids = {1..max} - incorporated', q[0],
             'trial_ids = set(range(1, max_trial_id + 1)) - incorporated ids',
             'the id filter of the loader is not "all ids up to max_trial_id minus the incorporated ones"',
